@@ -630,3 +630,8 @@ mutant('C12', 'stress buffer takes the positions\' element type', 'atomman/defec
 benign('C12', 'strain buffer with an explicit float type', 'atomman/defect/IsotropicVolterraDislocation.py', 'strain = np.empty(pos.shape[:-1] + (3,3))', 'strain = np.zeros(pos.shape[:-1] + (3,3), dtype=float)')
 mutant('C04', 'property buffer loses the property\'s element type', 'atomman/core/System.py', 'old.shape, dtype = old.dtype)', 'old.shape)', 'PROPERTY-TYPES')
 benign('C04', 'property buffer allocated like the property', 'atomman/core/System.py', 'new = np.empty((mults[0] * mults[1] * mults[2],) + old.shape, dtype = old.dtype)', 'new = np.empty_like(old, shape=(mults[0] * mults[1] * mults[2],) + old.shape)')
+mutant('C08', 'regress f236497: returned conversion table loses the scaled marking', 'atomman/dump/table/dump.py', "            scale.append(prop['prop_name'])\n", "            scale.append(prop['prop_name'])\n            prop['unit'] = None\n", 'TABLE-READ')
+benign('C08', 'scaled columns collected by a comprehension', 'atomman/dump/table/dump.py', "    scale = []\n    for prop in prop_info:\n        if prop['unit'] == 'scaled':\n            scale.append(prop['prop_name'])\n", "    scale = [prop['prop_name'] for prop in prop_info if prop['unit'] == 'scaled']\n")
+mutant('C07', 'tilt line decided with an absolute tolerance', 'atomman/dump/atom_data/dump.py', 'if xy != 0.0 or xz != 0.0 or yz != 0.0:', 'if not np.allclose([xy, xz, yz], 0.0):', 'DATA-FILE')
+mutant('C08', 'dump header form decided with an absolute tolerance', 'atomman/dump/atom_dump/dump.py', 'is_orthogonal = (xy == 0.0 and xz == 0.0 and yz == 0.0)', 'is_orthogonal = bool(np.allclose([xy, xz, yz], 0.0))', 'DUMP-FILE')
+benign('C07', 'tilt line decided by any()', 'atomman/dump/atom_data/dump.py', 'if xy != 0.0 or xz != 0.0 or yz != 0.0:', 'if any(t != 0.0 for t in (xy, xz, yz)):')
